@@ -318,97 +318,123 @@ func canonTyped(o *codec.TypedObj) interface{} {
 
 // diff returns "" when a and b (same type) are equal in the sense of the
 // property: same numbers, same bytes, same nil-ness of every slice, map and
-// pointer, exported fields only.
+// pointer, exported fields only. The path of a difference is assembled only
+// when there is one.
 func diff(a, b reflect.Value, path string) string {
+	if d := diff1(a, b); d != "" {
+		return path + d
+	}
+	return ""
+}
+
+func short(s string) string {
+	if len(s) > 80 {
+		return s[:80] + "..."
+	}
+	return s
+}
+
+func diff1(a, b reflect.Value) string {
 	t := a.Type()
 	switch t {
 	case bigIntType:
 		x := a.Interface().(big.Int)
 		y := b.Interface().(big.Int)
 		if x.Cmp(&y) != 0 {
-			return fmt.Sprintf("%s: big %s != %s", path, x.String(), y.String())
+			return fmt.Sprintf(": big %s != %s", x.String(), y.String())
+		}
+		return ""
+	case binType:
+		// a BinaryMarshaler's payload: bytes only (nil-ness is the type's own business)
+		if string(a.Field(0).Bytes()) != string(b.Field(0).Bytes()) {
+			return fmt.Sprintf(": bin %s != %s", short(fmt.Sprintf("%x", a.Field(0).Bytes())), short(fmt.Sprintf("%x", b.Field(0).Bytes())))
 		}
 		return ""
 	case typedObjType:
 		x := a.Interface().(codec.TypedObj)
 		y := b.Interface().(codec.TypedObj)
 		if !reflect.DeepEqual(canonTyped(&x), canonTyped(&y)) {
-			return fmt.Sprintf("%s: typed %v != %v", path, canonTyped(&x), canonTyped(&y))
+			return fmt.Sprintf(": typed %s != %s", short(fmt.Sprint(canonTyped(&x))), short(fmt.Sprint(canonTyped(&y))))
 		}
 		return ""
 	}
 	switch t.Kind() {
 	case reflect.Bool:
 		if a.Bool() != b.Bool() {
-			return fmt.Sprintf("%s: %v != %v", path, a.Bool(), b.Bool())
+			return fmt.Sprintf(": %v != %v", a.Bool(), b.Bool())
 		}
 	case reflect.Int, reflect.Int8, reflect.Int16, reflect.Int32, reflect.Int64:
 		if a.Int() != b.Int() {
-			return fmt.Sprintf("%s: %d != %d", path, a.Int(), b.Int())
+			return fmt.Sprintf(": %d != %d", a.Int(), b.Int())
 		}
 	case reflect.Uint, reflect.Uint8, reflect.Uint16, reflect.Uint32, reflect.Uint64:
 		if a.Uint() != b.Uint() {
-			return fmt.Sprintf("%s: %d != %d", path, a.Uint(), b.Uint())
+			return fmt.Sprintf(": %d != %d", a.Uint(), b.Uint())
 		}
 	case reflect.String:
 		if a.String() != b.String() {
-			return fmt.Sprintf("%s: %q != %q", path, a.String(), b.String())
+			return fmt.Sprintf(": %s != %s", short(fmt.Sprintf("%q", a.String())), short(fmt.Sprintf("%q", b.String())))
 		}
 	case reflect.Slice:
 		if a.IsNil() != b.IsNil() {
-			return fmt.Sprintf("%s: nil-ness %v != %v (len %d, %d)", path, a.IsNil(), b.IsNil(), a.Len(), b.Len())
+			return fmt.Sprintf(": nil-ness %v != %v (len %d, %d)", a.IsNil(), b.IsNil(), a.Len(), b.Len())
 		}
 		if a.Len() != b.Len() {
-			return fmt.Sprintf("%s: len %d != %d", path, a.Len(), b.Len())
+			return fmt.Sprintf(": len %d != %d", a.Len(), b.Len())
+		}
+		if t.Elem().Kind() == reflect.Uint8 {
+			if string(a.Bytes()) != string(b.Bytes()) {
+				return fmt.Sprintf(": bytes %s != %s", short(fmt.Sprintf("%x", a.Bytes())), short(fmt.Sprintf("%x", b.Bytes())))
+			}
+			return ""
 		}
 		for i := 0; i < a.Len(); i++ {
-			if d := diff(a.Index(i), b.Index(i), fmt.Sprintf("%s[%d]", path, i)); d != "" {
-				return d
+			if d := diff1(a.Index(i), b.Index(i)); d != "" {
+				return fmt.Sprintf("[%d]%s", i, d)
 			}
 		}
 	case reflect.Array:
 		for i := 0; i < a.Len(); i++ {
-			if d := diff(a.Index(i), b.Index(i), fmt.Sprintf("%s[%d]", path, i)); d != "" {
-				return d
+			if d := diff1(a.Index(i), b.Index(i)); d != "" {
+				return fmt.Sprintf("[%d]%s", i, d)
 			}
 		}
 	case reflect.Ptr:
 		if a.IsNil() != b.IsNil() {
-			return fmt.Sprintf("%s: nil-ness %v != %v", path, a.IsNil(), b.IsNil())
+			return fmt.Sprintf(": nil-ness %v != %v", a.IsNil(), b.IsNil())
 		}
 		if !a.IsNil() {
-			return diff(a.Elem(), b.Elem(), path+".*")
+			if d := diff1(a.Elem(), b.Elem()); d != "" {
+				return ".*" + d
+			}
 		}
 	case reflect.Struct:
 		for i := 0; i < t.NumField(); i++ {
-			if t.Field(i).PkgPath != "" && !t.Field(i).Anonymous {
-				continue
-			}
 			if !a.Field(i).CanInterface() {
 				continue
 			}
-			if d := diff(a.Field(i), b.Field(i), path+"."+t.Field(i).Name); d != "" {
-				return d
+			if d := diff1(a.Field(i), b.Field(i)); d != "" {
+				return "." + t.Field(i).Name + d
 			}
 		}
 	case reflect.Map:
 		if a.IsNil() != b.IsNil() {
-			return fmt.Sprintf("%s: nil-ness %v != %v (len %d, %d)", path, a.IsNil(), b.IsNil(), a.Len(), b.Len())
+			return fmt.Sprintf(": nil-ness %v != %v (len %d, %d)", a.IsNil(), b.IsNil(), a.Len(), b.Len())
 		}
 		if a.Len() != b.Len() {
-			return fmt.Sprintf("%s: len %d != %d", path, a.Len(), b.Len())
+			return fmt.Sprintf(": len %d != %d", a.Len(), b.Len())
 		}
 		for _, k := range a.MapKeys() {
 			bv := b.MapIndex(k)
 			if !bv.IsValid() {
-				return fmt.Sprintf("%s: key %v missing", path, k)
+				return fmt.Sprintf(": key %s missing", short(fmt.Sprint(k)))
 			}
-			if d := diff(a.MapIndex(k), bv, fmt.Sprintf("%s[%v]", path, k)); d != "" {
-				return d
+			if d := diff1(a.MapIndex(k), bv); d != "" {
+				return fmt.Sprintf("[%s]%s", short(fmt.Sprint(k)), d)
 			}
 		}
 	default:
-		return path + ": harness cannot compare " + t.String()
+		return ": harness cannot compare " + t.String()
 	}
 	return ""
 }
